@@ -27,7 +27,7 @@ def rand_template(rng, calm, r):
     t["kind"] = rng.choice(KINDS_TP)
     t["num"] = rng.choice([0, 1, 1, 2, 2, 3, 4])
     t["nc"] = rng.choice([1, 1, 2, 3])
-    t["gname"] = rng.choice([None, None, None, "grp%d" % r, "shared"])
+    t["gname"] = rng.choice([None, None, None, "grp-%d x" % r, "shared"])
     t["bad"] = sorted({rng.randrange(0, max(1, t["num"])) for _ in range(rng.choice([0, 0, 0, 1, 2]))}) if not calm else []
     if rng.random() < 0.04:
         t["notcoro"] = True
@@ -35,6 +35,8 @@ def rand_template(rng, calm, r):
     r2 = __import__("random").Random(rng.random())
     if t["gname"] is not None and r2.random() < 0.3:
         t["partial"] = True
+    if r2.random() < 0.2:
+        t["method"] = True
     if t["kind"] == "apply" and not calm and r2.random() < 0.05:
         t["mismatch"] = True
     if t["kind"] != "apply" and rng.random() < 0.04:
